@@ -36,6 +36,7 @@ func runC05Rest(c *Ctx) {
 	c.Rule("C05-P2", "tvPool typestate: on no path is a buffer both returned to tvPool and entered into the type tables")
 	c.Rule("C05-K1", "type-value tag agreement: the TypeValue* constants appendTypeValue emits are exactly those DecodeTypeValue decodes")
 	runTypeValueOneTable(c, "C05-P3")
+	runContextResetComplete(c, "C05-R1")
 	enter := p.Func("(*super.Context).enterWithLock")
 	if enter == nil {
 		c.Undecided("C05-L3", "(*super.Context).enterWithLock", "anchor does not resolve")
